@@ -112,7 +112,7 @@ def run(chk, repo):
                             f"{short(e.node, 50)} has no size: it reads to the end of the file", key=f"{fi.key}:unbounded-read")
     # I5 / I8
     chk.attempt(trace_requests, chk, repo)
-    chk.attempt(i5, chk, repo, covered_by="trace_requests")
+    chk.attempt(i5, chk, repo, covered_by="trace_requests", rules=("C11-I5",))
     # I6
     load_reach = g.reachable([WRAPPER_GETITEM])
     allowed = {GETITEM: {"fs_open"}, f"{ARRAY}:read_chunk": {"fs_read"}}
